@@ -26,7 +26,9 @@ type ruleMenu struct {
 	noRpt bool // environment answer: the data plane removes the URR without returning a final report
 }
 
-func op(verb, kind byte, id uint32) smf.RuleOp { return smf.RuleOp{Verb: verb, Kind: kind, ID: id, MInfo: -1} }
+func op(verb, kind byte, id uint32) smf.RuleOp {
+	return smf.RuleOp{Verb: verb, Kind: kind, ID: id, MInfo: -1}
+}
 func pdr(verb byte, id uint32, far uint32, urrs ...uint32) smf.RuleOp {
 	return smf.RuleOp{Verb: verb, Kind: 'P', ID: id, FAR: far, URRs: urrs, MInfo: -1}
 }
